@@ -4,6 +4,8 @@ From Coq.Strings Require Import Byte.
 From Gopki.Model Require Import Bytes Base64 Pem Der Asn1 Text Algs Glue Pkcs8 Ext Rdn Time X509 Generate HashView Dir Plan Run Ops Cli Merge Validate Current.
 From Gopki.Spec Require Import RegenSpec DirInv MergeSpec ValidateSpec X509Spec ExtSpec AdmissionSpec PolicySpec.
 From Gopki.Proofs Require Import RunProofs ExtProofs PlanProofs WfProofs X509Proofs DerProofs Asn1Proofs TimeRangeProofs RdnProofs GenerateProofs ValidateProofs TimeProofs AlgsProofs Base64Proofs PolicyProofs MergeProofs CliProofs OpsProofs FaultProofs HistoryProofs HashViewProofs Pkcs8Proofs RecoverProofs PemTornProofs AdmissionProofs PemProofs GlueProofs.
+From Gopki.Model Require Import Effective.
+From Gopki.Proofs Require Import EffectiveProofs.
 Import ListNotations.
 
 (* a subject written in the documented grammar parses to exactly its pairs, one RDN each, in reverse order *)
@@ -45,3 +47,12 @@ Theorem C03_fields_from_config :
                           end.
 Proof. exact gen_fields. Qed.
 Print Assumptions C03_fields_from_config.
+
+(* the result is the same whether or not a profile validated the subject: a profile never changes subject, serial or unique ids *)
+Theorem C03_profile_independent :
+  forall (p : option profile) (c c' : cert_cfg),
+    effective p c = Some c' ->
+    cc_subject c' = cc_subject c /\ cc_serial c' = cc_serial c /\ cc_issuer_uid c' = cc_issuer_uid c /\
+    cc_subject_uid c' = cc_subject_uid c /\ cc_keyalg c' = cc_keyalg c /\ cc_sigalg c' = cc_sigalg c /\ cc_manip c' = cc_manip c.
+Proof. exact effective_keeps_identity. Qed.
+Print Assumptions C03_profile_independent.
